@@ -184,7 +184,7 @@ func newGraph(cv cfgVariant) *graph {
 	conf.FelixHostname = localHost
 	conf.BPFEnabled = cv.bpf
 	conf.RouteSource = cv.routeSource
-	conf.Encapsulation = config.Encapsulation{VXLANEnabled: cv.vxlan, IPIPEnabled: cv.ipip}
+	conf.Encapsulation = config.Encapsulation{VXLANEnabled: cv.vxlan, VXLANEnabledV6: cv.vxlan, IPIPEnabled: cv.ipip}
 	g := &graph{dp: newDP()}
 	g.seq = calc.NewEventSequencer(conf)
 	g.seq.Callback = g.dp.onMsg
